@@ -58,11 +58,11 @@ func (g *gen) ref() string {
 	for i := 0; i < n; i++ {
 		switch g.r.Below(6) {
 		case 0:
-			base += "[" + g.str() + "]"
+			base += g.wrap("[", g.str(), "]")
 		case 1:
 			base += "[_]"
 		case 2:
-			base += "[" + g.ident() + "]"
+			base += g.wrap("[", g.ident(), "]")
 		case 3:
 			base += fmt.Sprintf("[%d]", g.r.Below(5))
 		default:
@@ -80,33 +80,34 @@ func (g *gen) term() string {
 	defer func() { g.depth-- }()
 	switch g.r.Below(16) {
 	case 0:
-		return "[" + g.terms(g.r.Below(4)) + "]"
+		return g.wrap("[", g.terms(g.r.Below(4)), "]")
 	case 1:
 		n := g.r.Below(3)
 		if n == 0 {
 			return "set()"
 		}
-		return "{" + g.terms(n) + "}"
+		return g.wrap("{", g.terms(n), "}")
 	case 2:
 		var kv []string
 		for i := g.r.Below(4); i > 0; i-- {
-			kv = append(kv, g.str()+": "+g.term())
+			kv = append(kv, g.str()+":"+g.brk(" ")+g.term())
 		}
-		return "{" + strings.Join(kv, ", ") + "}"
+		return g.wrap("{", strings.Join(kv, ","+g.brk(" ")), "}")
 	case 3:
-		return "[" + g.headTerm() + " | " + g.body(1+g.r.Below(2), "; ") + "]"
+		return g.wrap("[", g.headTerm()+" |"+g.brk(" ")+g.body(1+g.r.Below(2), "; "), "]")
 	case 4:
-		return "{" + g.headTerm() + " | " + g.body(1+g.r.Below(2), "; ") + "}"
+		return g.wrap("{", g.headTerm()+" |"+g.brk(" ")+g.body(1+g.r.Below(2), "; "), "}")
 	case 5:
-		return "{" + g.str() + ": " + g.headTerm() + " | " + g.body(1, "; ") + "}"
+		return g.wrap("{", g.str()+": "+g.headTerm()+" | "+g.body(1, "; "), "}")
 	case 6:
-		return fmt.Sprintf(g.pick(builtinsCalls), g.term())
+		return fmt.Sprintf(g.pick(builtinsCalls), g.brk("")+g.term()+g.brk(""))
 	case 7:
 		return g.term() + " " + g.pick([]string{"+", "-", "*", "/", "%", "|", "&"}) + " " + g.term()
 	case 8:
 		return "(" + g.term() + ")"
 	case 9:
-		return g.ident() + "(" + g.terms(1+g.r.Below(2)) + ")"
+		// a call of a name of the ident pool: user function, rule, import or nothing at all; any arity
+		return g.wrap(g.ident()+"(", g.terms(g.r.Below(4)), ")")
 	default:
 		return g.scalar()
 	}
@@ -129,11 +130,32 @@ func (g *gen) headTerm() string {
 }
 
 func (g *gen) terms(n int) string {
-	var ts []string
+	var sb strings.Builder
 	for i := 0; i < n; i++ {
-		ts = append(ts, g.term())
+		if i > 0 {
+			sb.WriteString("," + g.brk(" "))
+		}
+		sb.WriteString(g.term())
 	}
-	return strings.Join(ts, ", ")
+	return sb.String()
+}
+
+// brk: what stands at a token boundary inside a bracketed term — mostly `dflt`, sometimes a line break,
+// sometimes a comment (which forces the line break). Comments at token boundaries are a dimension of their own
+// (gen_comments.go enumerates them for fixed terms; here they meet random terms).
+func (g *gen) brk(dflt string) string {
+	switch g.r.Below(14) {
+	case 0:
+		return "\n\t\t"
+	case 1:
+		return " # " + g.pick([]string{"c", "first", "é", "regal ignore:all", "]", "TODO x"}) + "\n\t\t"
+	}
+	return dflt
+}
+
+// open / close wrap the content of a bracket pair with boundaries after the opening and before the closing one
+func (g *gen) wrap(open, content, close string) string {
+	return open + g.brk("") + content + g.brk("") + close
 }
 
 func (g *gen) expr() string {
@@ -316,8 +338,10 @@ func (g *gen) module() string {
 		sb.WriteString("# leading comment\n\n")
 	}
 	sb.WriteString("package " + g.pick([]string{"p", "a.b.c", "foo.bar_test", "p[\"q-r\"].s", "data_p", "regal.rules.x", "policy[\"日本\"]"}) + "\n\n")
-	for i := g.r.Below(4); i > 0; i-- {
-		sb.WriteString("import " + g.pick([]string{"rego.v1", "data.foo", "data.foo.bar as baz", "input.x", "input as inp", "future.keywords", "future.keywords.in", "data.a[\"b c\"] as bc", "data.foo"}) + "\n")
+	for i := g.r.Below(5); i > 0; i-- {
+		// the pool has several imports per identifier (foo, x, baz, users): the parser accepts what the compiler refuses
+		sb.WriteString("import " + g.pick([]string{"rego.v1", "data.foo", "data.foo.bar as baz", "input.x", "input as inp", "future.keywords", "future.keywords.in", "data.a[\"b c\"] as bc", "data.foo",
+			"data.b.foo", "input.foo", "data.c as foo", "data.y.x", "data.baz", "input.q as baz", "data." + g.ident(), "input." + g.ident(), "data.zz as " + g.ident()}) + "\n")
 	}
 	sb.WriteString("\n")
 	for i := 1 + g.r.Below(6); i > 0; i-- {
@@ -436,7 +460,10 @@ func StressModules(scale int) []Module {
 // ---- mutations of existing modules --------------------------------------------------------------------
 
 var mutKinds = []string{"crlf", "unicode-strings", "unicode-comments", "huge-numbers", "tabs", "trailing-ws", "no-final-newline",
-	"blank-lines", "dup-rules", "comment-each-line", "ignore-directives", "long-lines", "cr-only-tail"}
+	"blank-lines", "dup-rules", "comment-each-line", "ignore-directives", "long-lines", "cr-only-tail",
+	// parseable-but-not-compilable (gen_invalid.go) and comment placement (gen_comments.go); the latter twice: it is
+	// the one mutation that reaches every bracketed term of the real-world modules
+	"shadow-imports", "dup-heads", "uncompilable-body", "comments-at-boundaries", "comments-at-boundaries"}
 
 func mutate(r *hutil.Rng, kind, t string) string {
 	switch kind {
@@ -533,6 +560,14 @@ func mutate(r *hutil.Rng, kind, t string) string {
 		return strings.ReplaceAll(t, "input", "input"+strings.Repeat(".aaaaaaaaaa", 15))
 	case "cr-only-tail":
 		return t + "\r\n\r\n"
+	case "shadow-imports":
+		return mutateShadowImports(r, t)
+	case "dup-heads":
+		return mutateDupHeads(r, t)
+	case "uncompilable-body":
+		return mutateUncompilableBody(r, t)
+	case "comments-at-boundaries":
+		return mutateCommentsAtBoundaries(r, t)
 	}
 	return t
 }
